@@ -54,8 +54,14 @@ type verifOutcome struct {
 	ErrText string
 }
 
+// verifNamedReader is a reader that has a name of its own (like *os.File): the name is only a fallback
+// for an empty filename argument.
+type verifNamedReader struct{ *bytes.Reader }
+
+func (verifNamedReader) Name() string { return "name-of-reader.txt" }
+
 // verifCheck runs one entry point on one input and checks every clause of C06.
-// mode: 0 ParseString, 1 ParseBytes, 2 Parse(reader).
+// mode: 0 ParseString, 1 ParseBytes, 2 Parse(reader), 3 Parse(reader that has a Name()).
 func verifCheck[T any](p *participle.Parser[T], filename string, input []byte, mode int, opts ...participle.ParseOption) (out verifOutcome) {
 	var v *T
 	var err error
@@ -74,10 +80,15 @@ func verifCheck[T any](p *participle.Parser[T], filename string, input []byte, m
 			v, err = p.ParseString(filename, string(input), opts...)
 		case 1:
 			v, err = p.ParseBytes(filename, input, opts...)
-		default:
+		case 2:
 			v, err = p.Parse(filename, bytes.NewReader(input), opts...)
+		default:
+			v, err = p.Parse(filename, verifNamedReader{bytes.NewReader(input)}, opts...)
 		}
 	}()
+	if mode == 3 && filename == "" {
+		filename = "name-of-reader.txt" // documented fallback
+	}
 	if out.Class != "" {
 		return out
 	}
